@@ -117,6 +117,7 @@ def gen_f_driver(cases, nvals, with_class):
                             Ln = 12 if vi % 2 == 0 else max(1, len(raw))
                     blk.append("    " + ffmt(fr["decl"], n=p["name"], L=Ln))
                     sets.append("    " + ffmt(fr["set"], n=p["name"], v=fv))
+                sz = [4, 0, 1, 3][vi % 4]
                 fx, rr = fres(c, tt)
                 if "decl" in fx:
                     blk.append("    " + fx["decl"])
@@ -127,11 +128,13 @@ def gen_f_driver(cases, nvals, with_class):
                 for p in c["params"][:nsup]:
                     fr, r = frow(p, tt)
                     if fr.get("fin") and fr.get("arg") is not None:
-                        blk.append("    " + ffmt(fr["fin"], n=p["name"], m=p.get("m", "")))
+                        blk.append("    " + ffmt(fr["fin"], n=p["name"], m=p.get("m", ""), sz=sz))
                 blk.append("    call vt_end()")
-                args = ", ".join(ffmt(frow(p, tt)[0]["arg"], n=p["name"], m=p.get("m", ""))
+                args = ", ".join(ffmt(frow(p, tt)[0]["arg"], n=p["name"], m=p.get("m", ""), sz=sz)
                                  for p in c["params"][:nsup] if frow(p, tt)[0].get("arg") is not None)
-                if rr["ty"] != "none":
+                if fx.get("ptr"):
+                    blk.append("    rv => %s(%s)" % (name, args))
+                elif rr["ty"] != "none":
                     blk.append("    rv = %s(%s)" % (name, args))
                 else:
                     blk.append("    call %s(%s)" % (name, args))
@@ -142,7 +145,7 @@ def gen_f_driver(cases, nvals, with_class):
                 for p in c["params"][:nsup]:
                     fr, r = frow(p, tt)
                     if fr.get("fout"):
-                        blk.append("    " + ffmt(fr["fout"], n=p["name"], m=p.get("m", "")))
+                        blk.append("    " + ffmt(fr["fout"], n=p["name"], m=p.get("m", ""), sz=sz))
                 blk.append("    call vt_end()")
                 blk.append("  end block")
                 body += blk
